@@ -13,6 +13,8 @@ import IcontractModel.Config
 import IcontractModel.Spec.Override
 import IcontractModel.Spec.Frames
 import IcontractModel.Inv
+import IcontractModel.Stack
+import IcontractModel.Conc
 open Lean Icontract
 
 deriving instance FromJson, ToJson for Exc
@@ -349,6 +351,55 @@ def run (c : MetaCase) : Json :=
 
 end MetaRun
 
+/-! ## concurrency domain -/
+
+deriving instance FromJson, ToJson for Conc.Discipline
+deriving instance FromJson, ToJson for Conc.CallSpec
+
+structure ConcTask where
+  ctx : Nat
+  calls : List Conc.CallSpec
+deriving FromJson
+
+structure ConcCase where
+  discipline : Conc.Discipline
+  sets : List (List Nat)
+  tasks : List ConcTask
+  sched : List Nat
+deriving FromJson
+
+def runConc (c : ConcCase) : Json :=
+  let w0 : Conc.World := { sets := c.sets, tasks := c.tasks.map fun t => { ctx := t.ctx, calls := t.calls } }
+  let w := Conc.runSchedule c.discipline w0 c.sched
+  let vj (v : Conc.Verdict) : Json := match v with | .returned => jStr "returned" | .violation => jStr "violation"
+  Json.mkObj [
+    ("verdicts", jArr (w.tasks.map fun t => jArr (t.verdicts.map vj))),
+    ("finished", jArr (w.tasks.map fun t => boolJson (t.calls.isEmpty))),
+    ("sets", jArr (w.sets.map fun s => jArr (s.map jNat))),
+    ("expected", jArr (c.tasks.map fun t => jArr (t.calls.map fun cs => vj cs.expected)))]
+
+/-! ## decorator-stack domain -/
+
+structure StackCase where
+  decos : List String       -- bottom-up: require | ensure | snapshot | foreign
+deriving FromJson
+
+def runStack (c : StackCase) : Json :=
+  let ds : List Stack.Deco := c.decos.zipIdx.map (fun (d, i) =>
+    match d with
+    | "require" => .require i
+    | "ensure" => .ensure i
+    | "snapshot" => .snapshot i
+    | _ => .foreign i)
+  match Stack.applyAll ds {} with
+  | .error _ => Json.mkObj [("define_err", jStr "ValueError")]
+  | .ok o =>
+    Json.mkObj [("define_err", Json.null),
+      ("foreign", jArr ((Stack.callTrace o).filterMap fun e => match e with | .foreignRan g => some (jNat g) | _ => none)),
+      ("has_checker", boolJson o.hasChecker),
+      ("npre", jNat o.pre.length), ("npost", jNat o.posts.length), ("nsnap", jNat o.snaps.length),
+      ("nchecked", jNat ((Stack.callTrace o).filter (· == .checked)).length)]
+
 /-! ## member-selection domain -/
 
 deriving instance FromJson, ToJson for Meta.CheckOn
@@ -455,6 +506,14 @@ def handle (line : String) : String :=
       match (fromJson? j : Except String CheckerCase) with
       | .ok c => (runChecker c).compress
       | .error e => (Json.mkObj [("error", jStr s!"decode checker: {e}")]).compress
+    | .ok "conc" =>
+      match (fromJson? j : Except String ConcCase) with
+      | .ok c => (runConc c).compress
+      | .error e => (Json.mkObj [("error", jStr s!"decode conc: {e}")]).compress
+    | .ok "stack" =>
+      match (fromJson? j : Except String StackCase) with
+      | .ok c => (runStack c).compress
+      | .error e => (Json.mkObj [("error", jStr s!"decode stack: {e}")]).compress
     | .ok "select" =>
       match (fromJson? j : Except String SelectCase) with
       | .ok c => (runSelect c).compress
